@@ -2,7 +2,7 @@
 obligation is discharged; `scope` is what is decided; `outside` what is not."""
 
 PROPS = {
-    'C02': dict(units=['U1'], kani=[], level='proof',
+    'C02': dict(units=['U1', 'U2'], kani=[], level='proof',
                 scope='log codec: framing/parsing inverse, torn tail at any byte ignored, pending = suffix after last commit marker',
                 outside='ordering of append/sync/truncate calls against the disk, multi-crash histories, IndexWriter::new wiring, CRC collisions'),
 }
